@@ -107,9 +107,15 @@ func creatorExclusive(c *core.Ctx, r *core.Report, rule string, l *lifecycleRole
 			case *ssa.MakeInterface:
 				follow(x, d+1)
 			case *ssa.Call:
-				if !core.IsInvoke(x.Common(), ro.SCRGetOrCreate) {
-					okFlow = false
+				if core.IsInvoke(x.Common(), ro.SCRGetOrCreate) {
+					break
 				}
+				// a converting helper hands back the very value it was given
+				if fn := core.ClosureOf(x); fn != nil && fn == l.creator {
+					follow(x, d+1)
+					break
+				}
+				okFlow = false
 			case *ssa.FieldAddr:
 				// initialisation of the factory object's own fields
 				for _, r2 := range *x.Referrers() {
